@@ -96,7 +96,13 @@ func (m *Monitor) onEvent(ev Event) {
 		if ev.K != "EvCutoff" {
 			m.runsThisPass[ev.N]++
 			if m.runsThisPass[ev.N] > 1 {
-				m.add("C03", "ran-twice", fmt.Sprintf("function of n%d ran twice in one pass within one period of necessity", ev.N))
+				kind := "ran-twice"
+				if m.E.Par > 0 && m.necThisPass[ev.N] {
+					// the node left the graph and came back within this parallel pass (two binds of one
+					// height block): it is queued again and still runs with the block it was taken from
+					kind = "ran-twice@reregistered-in-parallel-block"
+				}
+				m.add("C03", kind, fmt.Sprintf("function of n%d ran twice in one pass within one period of necessity", ev.N))
 			}
 		}
 		if ev.K == "EvBindFn" {
